@@ -37,6 +37,8 @@ struct SendSt {
     /// send half as closed from that moment, before the frame reaches the wire)
     es_submitted: bool,
     rst_submitted: bool,
+    /// E read a frame of the peer on this stream after its latest RST_STREAM was written
+    peer_frame_after_rst: bool,
 }
 
 pub struct WireOut {
@@ -93,6 +95,9 @@ pub fn check_endpoint(v: &View, e: Side) -> WireOut {
     // peer-initiated streams accepted by E's application and still certainly active
     let mut accepted_active: BTreeMap<u32, ()> = BTreeMap::new();
     let mut refused_by_e: BTreeSet<u32> = BTreeSet::new();
+    // stream ids on which the peer has written any frame (a RST_STREAM answering such a frame is a
+    // reaction to the peer, even if the id is formally idle, e.g. PRIORITY depending on itself)
+    let mut peer_touched: BTreeSet<u32> = BTreeSet::new();
 
     for ev in v.evs() {
         if ev.conn != v.conn {
@@ -102,6 +107,9 @@ pub fn check_endpoint(v: &View, e: Side) -> WireOut {
             EvK::W { dir, idx } if *dir == pd => {
                 // the peer wrote a frame (permissive knowledge for idle rules, and obligations queue)
                 let f = v.frame(*dir, *idx);
+                if f.sid != 0 {
+                    peer_touched.insert(f.sid);
+                }
                 match &f.body {
                     Body::Settings { ack: false, entries } => {
                         peer_settings_written += 1;
@@ -167,6 +175,12 @@ pub fn check_endpoint(v: &View, e: Side) -> WireOut {
                         peer_goaway_read = Some((*last, *code));
                     }
                     _ => {}
+                }
+                if f.sid != 0 {
+                    let st = streams.entry(f.sid).or_default();
+                    if st.rst_sent > 0 {
+                        st.peer_frame_after_rst = true;
+                    }
                 }
                 if f.end_stream() {
                     let st = streams.entry(f.sid).or_default();
@@ -350,13 +364,18 @@ pub fn check_endpoint(v: &View, e: Side) -> WireOut {
                         }
                     }
                     Body::Rst { code } => {
-                        check_not_idle(&mut viol, &mut fail, e, f, e_parity, max_e_opened, max_peer_opened);
+                        if !peer_touched.contains(&f.sid) {
+                            check_not_idle(&mut viol, &mut fail, e, f, e_parity, max_e_opened, max_peer_opened);
+                        }
                         let st = streams.entry(f.sid).or_default();
                         st.rst_sent += 1;
-                        // A further RST_STREAM(STREAM_CLOSED) is the library's RFC-permitted reaction to
-                        // peer frames arriving for a stream it already reset; it is not a second reset
-                        // "for" the user's operation and is bounded by max_local_error_reset_streams (C18).
-                        if st.rst_sent > 1 && *code == 5 {
+                        // A further RST_STREAM sent after E read another peer frame for a stream it had already
+                        // reset (or any RST_STREAM(STREAM_CLOSED)) is the library's RFC-permitted reaction to that
+                        // frame; it is not a second reset "for" the user's operation and is bounded by
+                        // max_local_error_reset_streams (C18).
+                        let reactive = st.peer_frame_after_rst;
+                        st.peer_frame_after_rst = false;
+                        if st.rst_sent > 1 && (*code == 5 || reactive) {
                             stats.inc(&p("reactive_stream_closed_rst"));
                         } else if st.rst_sent > 1 {
                             fail(&mut viol, "C17", "more-than-one-rst-stream", format!("{}: second RST_STREAM on stream {} (codes {:?} then {})", e.name(), f.sid, st.rst_code, code));
